@@ -1726,7 +1726,7 @@ def concatenate(
 
     """
     pulses = tuple(pulses)
-    if len(pulses) == 1:
+    if len(pulses) == 1 and not calc_filter_function and not calc_pulse_correlation_FF:
         return copy.deepcopy(pulses[0])
 
     newpulse, _, n_oper_mapping = concatenate_without_filter_function(
